@@ -1,6 +1,7 @@
 import Enc.Lemmas.Proto
 import Enc.Lemmas.ProtoVarint
 import Enc.Lemmas.ProtoRoundTrip
+import Enc.Lemmas.ProtoMap
 /-!
 # C03 — proto: Unmarshal(Marshal(v)) == v and Size(v) == len(Marshal(v))
 
@@ -72,5 +73,25 @@ theorem unmarshal_marshal_partial (fs : Fields) (v : Val)
     ∃ v', unmarshal (.struct fs) (marshal (.struct fs) v) = .ok v'
       ∧ Spec.Protobuf.canonical (.struct fs) v' = Spec.Protobuf.canonical (.struct fs) v :=
   Lemmas.ProtoRoundTrip.unmarshal_marshal_partial fs v hty hv hne hlen
+
+open Lemmas.ProtoWire Lemmas.ProtoMap in
+/-- … and with map fields (`map[K]V`, any key kind protobuf allows, scalar / message / pointer values) anywhere in the
+message, on the larger universe `tyOKM` (= `tyOK` + map-typed fields; proofs in Enc/Lemmas/ProtoMap*.lean). `valOKM`
+extends `noEmptyPtr` through maps and asks every map to be non-empty with pairwise distinct keys: the empty map is the
+known finding proto-empty-map-marker (`ProtoMapFindings` shows the theorem fails there), and distinct keys is what a
+Go map guarantees. -/
+theorem unmarshal_marshal_map_partial (fs : Fields) (v : Val)
+    (hty : tyOKM (.struct fs) = true) (hv : hasTypeM (.struct fs) v = true) (hne : valOKM (.struct fs) v = true)
+    (hlen : (marshal (.struct fs) v).length < 2 ^ 64) :
+    ∃ v', unmarshal (.struct fs) (marshal (.struct fs) v) = .ok v'
+      ∧ Spec.Protobuf.canonical (.struct fs) v' = Spec.Protobuf.canonical (.struct fs) v :=
+  Lemmas.ProtoMap.unmarshal_marshal_map_partial fs v hty hv hne hlen
+
+open Lemmas.ProtoWire Lemmas.ProtoMap in
+/-- the hypotheses are satisfiable by a concrete message with map fields -/
+example : tyOKM (.struct Lemmas.ProtoMap.Findings.exMFields) = true
+    ∧ hasTypeM (.struct Lemmas.ProtoMap.Findings.exMFields) (.struct Lemmas.ProtoMap.Findings.exMVals) = true
+    ∧ valOKM (.struct Lemmas.ProtoMap.Findings.exMFields) (.struct Lemmas.ProtoMap.Findings.exMVals) = true :=
+  ⟨Lemmas.ProtoMap.Findings.exM_ty, Lemmas.ProtoMap.Findings.exM_val, Lemmas.ProtoMap.Findings.exM_ok⟩
 
 end Enc.Props.C03
